@@ -347,6 +347,19 @@ def run(ck, ctx):
                 ungathered = _ungathered
                 idxs = {g.vn(ungathered(n.args[1])): ungathered(n.args[1]) for n in subs}
                 used = {tab_ids[n.args[0].id] for n in subs}
+                other_gathers = [n for n in walk([r.value]) if n.op == "Subscript" and n.args[0].id not in tab_ids and
+                                 n.args[1].op not in ("Const", "Slice", "Tuple") and
+                                 (n.args[1].op in ("Scatter", "Call", "BinOp") or
+                                  is_ext_call(_ungathered(n.args[1]), "numpy.zeros_like", "numpy.zeros", "numpy.where",
+                                              "numpy.searchsorted", "numpy.digitize", "numpy.count_nonzero")) and
+                                 n.args[0].op not in ("Input",) and not any(x.op == "Input" for x in walk([n.args[0]]))]
+                if not subs and other_gathers:
+                    # parameters gathered by a layer index - but from arrays that are not the shared layer tables
+                    ck.ob("R19.2", f"{tag}: the layer parameters are read from the shared layer tables (constants: base "
+                          "heights, lapse rates, base temperatures, base pressures - sentinel row included)", False,
+                          other_gathers[0], fname, f"{len(other_gathers)} gather(s) from other arrays, e.g. "
+                          f"{g.show(other_gathers[0].args[0], 2)}", construct=f"{fname}: layer parameters not from the shared tables")
+                    continue
                 if not subs:
                     # the layer parameters are not gathered by an index array at all (one function per table row, constants
                     # bound row by row, ...): a form these obligations cannot read - undecided, not a verdict
